@@ -365,6 +365,55 @@ def feval(t, env, eng, depth=0):
     return None
 
 
+def ret_cases(crate, fn, args=None, **kw):
+    """(engine, [(returned value, facts on that return edge)]) of the top frame of `fn` — for
+    functions written with early returns, whose merged result has no gate to read"""
+    eng = Engine(crate, **kw)
+    cases = {}
+    def eh(body, s_, t_, st, fk):
+        if body.path != fn or len(fk) != 1: return
+        if t_ == "return" or (t_ != "return" and body.blocks[t_]["term"]["k"] == "return"):
+            cases[(s_, t_)] = (st.store.get((fk, 0)), st.facts)      # last visit of each edge
+    eng.edge_hook = eh
+    eng.run(fn, args)
+    return eng, [c for c in cases.values() if c[0] is not None]
+
+
+def feval_cases(cases, env, eng):
+    """value of the function at a point: the returned value of the return edge(s) whose facts all
+    hold there; None unless they agree"""
+    vals = set()
+    for v, facts in cases:
+        ok = True
+        for f in facts:
+            if f[0] != 'b': continue
+            c = feval(f[1], env, eng)
+            if c is None: continue
+            if bool(c) != bool(f[2]): ok = False; break
+        if ok:
+            x = feval(v, env, eng)
+            if x is None: return None
+            vals.add(x)
+    return vals.pop() if len(vals) == 1 else None
+
+
+def feval_leaves(leaves, env):
+    """value of a function at a point from its leaves (explore_leaves): the leaf whose forced test
+    outcomes are the ones the tests have at that point"""
+    vals = set()
+    for forced, eng, r in leaves:
+        ok = True
+        for t, c in forced.items():
+            v = feval(t, env, eng)
+            if v is None: ok = False; break
+            if (bool(v) if c[1] == 'bool' else v) != (bool(c[2]) if c[1] == 'bool' else c[2]): ok = False; break
+        if ok and r.returns:
+            x = feval(r.ret, env, eng)
+            if x is None: return None
+            vals.add(x)
+    return vals.pop() if len(vals) == 1 else None
+
+
 def explore_leaves(crate, fn, opaque=(), args=None, max_tests=7, frames=None, models=None, subst0=None):
     """Every way through the non-constant two-way tests of `fn` (comparisons, boolean places, Option /
     two-variant discriminants), each forced in turn with Engine.subst.  Returns
